@@ -80,7 +80,7 @@ def base_states(rng):
 def run(rep, work, rng, tier):
     common.proof_part(rep, 'C07')
     cases = []; kinds = {}
-    reps = 1 if tier == 'quick' else 12
+    reps = 1 if tier == 'quick' else 40
     for _ in range(reps):
         for bi, b in enumerate(base_states(rng)):
             sh = b.sh
